@@ -49,9 +49,11 @@ def run(ctx):
     ctx.cov.update({
         "traces_validated_against_impl": stats["runs"], "evaluations": stats["runs"],
         "distinct_nontrivial": len([s_ for s_ in scen if s_["scen"]["dst"] != "missing"]),
-        "rule": "every scenario of the model (copy/move x source file|missing|dir x 13 destination kinds incl. same path, ./ and sub/.. "
-                "spellings, symlink, hard link, other file system, dangling link, directory, missing / non-directory parent) x sizes "
-                "0 B, 12 B, 33 KiB, 3 MiB on real directories; non-trivial = destination is not simply missing",
+        "rule": "every scenario of the model (copy/move x source file|missing|dir|symlink-to-file x 16 destination kinds incl. same path, ./ and "
+                "sub/.. spellings, symlink, hard link, other file system, dangling link, directory, missing / non-directory parent, a full "
+                "device) x sizes 0 B, 12 B, 33 KiB, 64 KiB, 1 MiB, 2 MiB+123457, 3 MiB on real directories; contents random or with runs of "
+                "zero bytes; source names that look like scratch files of the destination; existing destinations also with the source's "
+                "length and modification time; non-trivial = destination is not simply missing",
         "exhaustive": True, "scenarios": len(scen), "stats": stats, "mismatches": len(mm),
     })
     ctx.sample(scen[5])
